@@ -89,6 +89,10 @@ def run_case(case):
     want_cols = {"value", "_period"} | {c for c, _ in mj["choices"]} | {s for s, _ in mj["states"]} | set(targets or [])
     if set(df.columns) != want_cols:
         vs.append({"clause": "columns: value, choices, states, _period, targets", "detail": f"extra {sorted(set(df.columns) - want_cols)}, missing {sorted(want_cols - set(df.columns))}"})
+    n_want = 2 + len(mj["choices"]) + len(mj["states"]) + len(targets or [])
+    if set(df.columns) == want_cols and len(df.columns) != n_want:
+        vs.append({"clause": "one column each for the value, every choice, every state, _period and every target",
+                   "detail": f"{len(df.columns)} columns {list(df.columns)} for {n_want} quantities (value, _period, choices {[c for c, _ in mj['choices']]}, states {[s for s, _ in mj['states']]}, targets {targets or []})"})
     res = info["res"]
     vs += res["C13"]
     # row (t, i) describes agent i: inherited from the step-wise relations
@@ -113,6 +117,31 @@ def run_case(case):
                 if not same_number(float(col[ridx]), a[k]):
                     vs.append({"clause": "target column equals the model function at the row", "detail": f"target {name} row {divmod(ridx, n)}: frame {fr(float(col[ridx]))}, model {a[k]}"})
                     break
+    # consequences of the target theorems, checked on the frame alone (no model evaluation involved):
+    # C13_constraint_targets_hold, C13_last_period_utility_target_is_value, C13_transition_target_is_next_state
+    if targets and not vs:
+        import numpy as np
+
+        val = np.asarray(df["value"], dtype=float)
+        for name in targets:
+            col = np.asarray(df[name]).astype(float)
+            bad = None
+            if _cls(name) == "constraint":
+                bad = next((r for r in range(len(col)) if np.isfinite(val[r]) and not col[r] == 1.0), None)
+                what = "a constraint target is true in every row with a finite value"
+            elif name == "utility":
+                bad = next((r for r in range((T - 1) * n, T * n) if np.isfinite(val[r]) and not abs(col[r] - val[r]) <= 1e-9 * max(1.0, abs(val[r]))), None)
+                what = "the utility target of the last period is the value column"
+            elif _cls(name) == "next" and name[5:] in df.columns:
+                nxt = np.asarray(df[name[5:]], dtype=float)
+                bad = next((r for r in range((T - 1) * n) if not (col[r] == nxt[r + n] or (np.isnan(col[r]) and np.isnan(nxt[r + n])))), None)
+                what = "a deterministic-transition target is the state column one period later"
+            cells += len(col)
+            if bad is not None:
+                vs.append({"clause": what, "detail": f"target {name} row {divmod(bad, n)}: target {float(col[bad])!r}, value {float(val[bad])!r}"
+                           + (f", state {name[5:]} in the next period {float(np.asarray(df[name[5:]], dtype=float)[bad + n])!r}" if _cls(name) == "next" and name[5:] in df.columns else "")})
+                break
+        out["hist"]["frame_internal_target_relations"] = 1
     # second call on the *same* function object with other parameters and the same target list: the target columns
     # must follow the parameters of the current call
     if targets and not vs:
